@@ -18,6 +18,32 @@ from ..facts import src
 from ..util import is_assign
 
 
+_UNSIGNED = ("unsigned", "uint8_t", "uint16_t", "uint32_t", "uint64_t", "size_t", "uintptr_t")
+
+
+def _cty(t):
+    """'unsigned' when the spelled type is an unsigned integer (typedef names included), else ''."""
+    t = (t or "").replace("const ", "").strip()
+    return "unsigned" if "*" not in t and any(t.startswith(u) for u in _UNSIGNED) else ""
+
+
+_W = {"char": 8, "signed char": 8, "unsigned char": 8, "uint8_t": 8, "int8_t": 8, "_Bool": 8, "bool": 8,
+      "short": 16, "unsigned short": 16, "uint16_t": 16, "int16_t": 16,
+      "int": 32, "unsigned int": 32, "uint32_t": 32, "int32_t": 32}
+
+
+def _no_truncation(outer):
+    """No explicit cast between `outer` and its cast-stripped operand narrows the value."""
+    n = outer
+    while n is not None and n.k in ("ParenExpr", "ImplicitCastExpr", "CStyleCastExpr", "ConstantExpr") and n.c:
+        if n.k == "CStyleCastExpr":
+            w = lambda t: _W.get((t or "").replace("const ", "").strip(), 64)
+            if w(n.t) < w(n.c[0].strip().t):
+                return False
+        n = n.c[0]
+    return True
+
+
 def strip_base(t):
     """Canonical tree with the object a member is read from abstracted and casts dropped."""
     if isinstance(t, tuple):
@@ -87,11 +113,20 @@ def file_invariants(P, relfile):
                     continue
                 if c.c[1].cv is None:
                     continue
-                members = [(m.get("rec"), m.name) for m in c.c[0].walk() if m.k == "MemberExpr"]
+                lhs, shift = c.c[0], 0
+                # single-comparison range test `(unsigned)E - c >= K` (rejects E < c and E >= K + c):
+                # afterwards c <= E <= K + c - 1
+                l0 = lhs.strip_casts()
+                if l0.k == "BinaryOperator" and l0.op == "-" and l0.c[1].cv is not None and l0.c[1].cv >= 0 \
+                        and "unsigned" in _cty(l0.t) and _no_truncation(lhs) and _no_truncation(l0.c[0]):
+                    lhs, shift = l0.c[0].strip_casts(), l0.c[1].cv
+                elif lhs.strip().k == "CStyleCastExpr" and "unsigned" in _cty(lhs.strip().t) and _no_truncation(lhs):
+                    lhs = l0        # `(unsigned)E >= K` rejects negatives and E >= K alike
+                members = [(m.get("rec"), m.name) for m in lhs.walk() if m.k == "MemberExpr"]
                 if not members:
                     continue
                 if any(x.k in ("DeclRefExpr",) and x.get("dk") in ("local", "param") and "*" not in (x.t or "")
-                       for x in c.c[0].walk()):
+                       for x in lhs.walk()):
                     continue    # mixes in a local/parameter value: not a property of the object
                 stable = True
                 for key in members:
@@ -100,8 +135,8 @@ def file_invariants(P, relfile):
                             stable = False
                 if not stable:
                     continue
-                K = c.c[1].cv if c.op == ">" else c.c[1].cv - 1     # E <= K afterwards
-                e = strip_base(cz(c.c[0]))
+                K = (c.c[1].cv if c.op == ">" else c.c[1].cv - 1) + shift     # E <= K afterwards
+                e = strip_base(cz(lhs))
                 inv[e] = min(inv.get(e, K), K)
     return inv
 
@@ -323,6 +358,34 @@ def _bound(P, fn, cz, node, idx, L, inv, field_consts):
                 lim = _ensures_below(P, h, base.name, inv, field_consts, L, minus)
                 if lim is not None:
                     return "ok:%s() answers true only with %s below %s or just reset to 0" % (h.name, base.name, lim)
+    # access inside the right operand of `idx < K && ...` (any expression, not only an if-condition)
+    for a in node.ancestors():
+        if a.k == "BinaryOperator" and a.op == "&&" and any(x is node for x in a.c[1].walk()):
+            lv = []
+
+            def split3(c_):
+                c_ = c_.strip()
+                if c_.k == "BinaryOperator" and c_.op == "&&":
+                    split3(c_.c[0])
+                    split3(c_.c[1])
+                else:
+                    lv.append(c_)
+            split3(a.c[0])
+            for lf in lv:
+                if lf.k == "BinaryOperator" and lf.op == "<" and lf.c[1].cv is not None and \
+                        src(lf.c[0].strip_casts()) == itxt and lf.c[1].cv - minus <= L:
+                    return "ok:right operand of `%s &&`" % src(lf)
+    # a local that only caches a member (`const int level = dec->nesting_level;`): the member's
+    # all-time bound holds for the cached copy as well
+    from ..canon import info as _info
+    seen = 0
+    while base.k == "DeclRefExpr" and base.get("dk") == "local" and seen < 4:
+        d0 = _info(fn).single_def(base.get("d"))
+        if d0 is None:
+            break
+        base, m2 = _idx_minus(d0.strip_casts())
+        minus += m2
+        seen += 1
     # `x > 0` guard with index x - 1 and x bounded above by a guard elsewhere (nesting level idiom)
     if minus > 0:
         t = strip_base(cz(base))
